@@ -36,8 +36,8 @@ def seq(*fs):
 
 MUTS = [
     # ------------------------------------------------------------------ C08: LZ10 compression
-    ("c08-a", ["C08"], "look-ahead 0x12 -> 0x11 when the rest of the input is shorter than 0x12", L10,
-     rep("min(bytes.len() - read_bytes, 0x12), ", "if bytes.len() - read_bytes < 0x12 { min(bytes.len() - read_bytes, 0x11) } else { 0x12 }, ")),
+    ("c08-a", ["C08"], "look-ahead 0x12 -> 0x11 when at most 0x12 bytes are left (a final match of 18 is cut to 17 + a literal)", L10,
+     rep("min(bytes.len() - read_bytes, 0x12), ", "if bytes.len() - read_bytes <= 0x12 { min(bytes.len() - read_bytes, 0x11) } else { 0x12 }, ")),
     ("c08-b", ["C08"], "flag bits of the last, partial group are right-aligned", L10,
      rep("        if buffered_blocks > 0 {\n", "        if buffered_blocks > 0 {\n            if buffered_blocks < 8 { out_buffer[0] >>= 8 - buffered_blocks; }\n")),
     ("c08-c", ["C08"], "displacement stored as disp instead of disp-1 when disp = 4096", L10,
@@ -109,7 +109,7 @@ MUTS = [
      seq(rep("            if disp >= out.len() {\n                return None;\n            }\n", ""),
          rep("let start = out.len() - disp - 1;", "let start = out.len().wrapping_sub(disp).wrapping_sub(1);"))),
     ("c11-i", ["C11"], "unknown type byte treated as LZ10", L13,
-     rep("            _ => return None,\n        };", "            _ => false,\n        };")),
+     rep("        _ => return None,\n    };", "        _ => false,\n    };")),
     ("c11-j", ["C11"], "extended size read for LZ10 too (size == 0 && lz11 -> size == 0)", L13,
      rep("if size == 0 && lz11 {", "if size == 0 {")),
     ("c11-k", ["C11"], "CompressionFormat::LZ10 decompress dispatches to the LZ13 entry point", CF,
